@@ -497,6 +497,27 @@ def run(check):
     check.cov['evaluations'] = len(values) + len(all_streams)
     check.cov['distinct_nontrivial'] = len(set(bs for _, bs, wf in encodings if wf and len(bs) > 1)) + \
         len(set(s for s in all_streams if len(s) > 1))
+    # 3z. the codec is a function of its argument: a call that FAILS half way (after part of the output was produced: an
+    # unencodable leaf late in a container) must not change what later calls return
+    poison = poison_values(um)
+    hist_n = hist_bad = 0
+    pool = [v for v in values[:4000] if not isinstance(v, (dict, list)) or len(v) < 50]
+    for i in range(300 if quick else 5000):
+        v = rng.choice(pool)
+        before = impl_dumps(um, v)
+        pi = rng.randrange(len(poison))
+        bad_v = poison[pi]
+        bad_r = impl_dumps(um, bad_v)
+        after = impl_dumps(um, v)
+        hist_n += 1
+        if after != before or (after[0] == 'ok' and data_model(v, um) and impl_loads(um, bytes.fromhex(after[1])) != ('ok', canon(norm_json(to_json(v, um))))):
+            hist_bad += 1
+            if hist_bad <= 5:
+                check.fail('dumps(v) changed after a failing dumps call (the codec keeps state between calls)',
+                           {'kind': 'history', 'value': short(v), 'value_json': small_json(to_json(v, um)), 'failing_call': short(bad_v), 'poison_index': pi,
+                            'failing_call_outcome': short(bad_r), 'before': short(before), 'after': short(after)})
+    check.extra['failing_call_histories'] = {'histories': hist_n, 'changed': hist_bad, 'poison_values': len(poison)}
+
     check.cov['rule'] = ('values: every integer within +-3 of each format boundary, str/bin/ext/array/map lengths around every '
                          'length boundary, special floats, random nested values to depth 6 (one PRNG from VERIF_SEED); streams: '
                          'every produced encoding, cut points of every encoding (all for <= 64 bytes), all 256 first bytes x 4 tails, '
@@ -573,7 +594,10 @@ def data_model(v, um, key=False):
 
 
 def short(x, n=300):
-    s = repr(x)
+    try:
+        s = repr(x)
+    except RecursionError:
+        s = '<%s nested too deeply to print>' % type(x).__name__
     return s if len(s) <= n else s[:n] + '...(%d chars)' % len(s)
 
 
@@ -604,6 +628,20 @@ def from_json(j, um, key=False):
     return Opaque()
 
 
+def poison_values(um):
+    """values on which dumps fails after part of the output was produced"""
+    class Boom(object):
+        pass
+
+    def deep(n):
+        x = []
+        for _ in range(n):
+            x = [x]
+        return x
+    return [['ok', '\ud800'], {'k': [b'xy', '\udfff']}, [1, 2, Boom()], {'a': 1, 'b': Boom()}, ['pre', 2 ** 70], [b'bin', -2 ** 70],
+            [1.5, um.Ext(3, b'abc'), Boom()], ['long' * 100, {'z': '\udc00'}], [0, deep(100000)]]
+
+
 def replay(path):
     data = json.load(open(path))
     for k in [k for k in sys.modules if k == 'supp' or k.startswith('supp.')]:
@@ -626,6 +664,12 @@ def replay(path):
             oracle_value(chk, um, v, impl_dumps(um, v))
             got = [f['what'] for f in chk.failures]
             ok = not got
+        elif kind == 'history' and r.get('value_json') is not None and r.get('poison_index') is not None:
+            v = from_json(r['value_json'], um)
+            before = impl_dumps(um, v)
+            impl_dumps(um, poison_values(um)[r['poison_index']])
+            got = impl_dumps(um, v)
+            ok = got == before
         else:
             print('not replayable (value too large to record):', item['what'])
             continue
